@@ -511,6 +511,57 @@ impl<'a> Sim<'a> {
                 return None;
             }
         }
+        // "however often": an unrelated resolution in between - the twin of this very room (same room
+        // ID and event IDs, users rotated, so another creator and other power holders) resolved on
+        // this thread - must not change what the next resolution of the real room returns
+        if self.t.chance(1, 4) {
+            let users = self.all_users.clone();
+            let rot = 1 + self.t.index(users.len().max(2) - 1);
+            let map: Vec<(String, String)> = users.iter().enumerate().map(|(i, u)| (u.clone(), users[(i + rot) % users.len()].clone())).collect();
+            // synthetic rooms have their own users
+            let mut extra: BTreeSet<String> = BTreeSet::new();
+            for s in &plain {
+                for (k, _) in s.iter() {
+                    if k.0 == "m.room.member" && !users.contains(&k.1) {
+                        extra.insert(k.1.clone());
+                    }
+                }
+            }
+            let extra: Vec<String> = extra.into_iter().collect();
+            let map: Vec<(String, String)> = if extra.len() >= 2 { extra.iter().enumerate().map(|(i, u)| (u.clone(), extra[(i + 1) % extra.len()].clone())).collect() } else { map };
+            let twin: BTreeMap<String, Pdu> = store.iter().filter_map(|(id, p)| crate::conv::twin_pdu(p, &map).map(|tp| (id.clone(), tp))).collect();
+            let tfetch = |id: &str| twin.get(id).cloned();
+            // either on this thread (the twin is the latest call before the real one) or on a brand-new
+            // thread (the twin is the very first call the thread ever makes)
+            let on_new_thread = self.t.chance(1, 2);
+            let again = if on_new_thread {
+                let seed = self.t.u64();
+                let (rules, plain, chains, ident, fetch, tfetch) = (&self.rules.authorization, &plain, &chains, &ident, &fetch, &tfetch);
+                std::thread::scope(|sc| {
+                    sc.spawn(move || {
+                        simcore::hashseed::set_thread_seed(seed);
+                        let _ = real::resolve(rules, plain, chains, ident, ident, tfetch, &|| {});
+                        real::resolve(rules, plain, chains, ident, ident, fetch, &|| {})
+                    })
+                    .join()
+                    .unwrap_or(Outcome::Panic("thread died".into()))
+                })
+            } else {
+                let _ = real::resolve(&self.rules.authorization, &plain, &chains, &ident, &ident, &tfetch, &|| {});
+                real::resolve(&self.rules.authorization, &plain, &chains, &ident, &ident, &fetch, &|| {})
+            };
+            self.bump(if on_new_thread { "agree.after-twin-room.new-thread" } else { "agree.after-twin-room.this-thread" });
+            self.bump("agree.after-twin-room");
+            self.flag("c06.twin-room");
+            if again != first {
+                self.violate(
+                    "C06",
+                    "agree/resolve.after-unrelated-call".into(),
+                    json!({"oracle":"equality","site":site,"first":outcome_json(&first),"after_resolving_the_twin_room":outcome_json(&again),"user_map":map,"sets":sets_json(&plain)}),
+                );
+                return None;
+            }
+        }
         // identity clauses
         if self.t.chance(1, 4) {
             let s = plain[self.t.index(plain.len())].clone();
